@@ -4,7 +4,9 @@ import (
 	"encoding/binary"
 	"fmt"
 	"sort"
+	"strconv"
 	"strings"
+	"time"
 
 	"github.com/alpacahq/marketstore/v4/verif/internal/hist"
 	"github.com/alpacahq/marketstore/v4/verif/internal/runner"
@@ -23,7 +25,7 @@ type walker struct {
 	// V -> number of completed primary applications (index write done) before the crash
 	applied map[int64]int
 	// files with an in-place data write whose index write is still missing (F-CONT window)
-	cont     map[string]bool
+	cont map[string]bool
 	// variable-length files whose data/index writes were altered by a power-loss variant
 	lossVar  map[string]bool
 	lastWAL8 map[string]int64 // walfile -> value of the last 8-byte write (candidate TGLen)
@@ -276,6 +278,42 @@ func walStopsAt(s *snap) int64 {
 	return stop
 }
 
+// walSkipAsIs models what a restart does to one fixed-length slot under F-WALSKIP: from = id of the
+// transaction at which replay stops (0: the defect does not apply to this crash state); any/last = the
+// payload the last replayed transaction (id < from) writes into the slot, if one does.
+func walSkipAsIs(s *snap, sk slotKey) (from int64, last int64, any bool) {
+	from = walStopsAt(s)
+	if from == 0 {
+		return 0, 0, false
+	}
+	tfSec := map[string]int64{"1Min": 60, "5Min": 300, "15Min": 900, "1H": 3600, "4H": 14400, "1D": 86400}
+	var rp []walMsg
+	for _, msgs := range s.walImages() {
+		rp = append(rp, replayable(msgs)...)
+	}
+	sort.Slice(rp, func(i, j int) bool { return rp[i].TGID < rp[j].TGID })
+	for _, tg := range rp {
+		if tg.TGID >= from {
+			break
+		}
+		for _, c := range tg.Cmds {
+			parts := strings.Split(c.Path, "/")
+			if c.RecType != 0 || len(parts) != 4 || strings.Join(parts[:3], "/") != sk.Key || len(c.Vs) == 0 {
+				continue
+			}
+			year, err := strconv.Atoi(strings.TrimSuffix(parts[3], ".bin"))
+			sec, ok := tfSec[parts[1]]
+			if err != nil || !ok {
+				continue
+			}
+			if time.Date(year, 1, 1, 0, 0, 0, 0, time.UTC).Unix()+(c.Index-1)*sec == sk.Slot {
+				last, any = c.Vs[len(c.Vs)-1], true
+			}
+		}
+	}
+	return from, last, any
+}
+
 // destroyState: for bucket key at prefix k: (indeterminate: a Destroy is in flight; cutoff: effect position
 // of the last acknowledged Destroy's start, writes started before it no longer count; -1 none).
 func (m *model) destroyState(key string, k int) (indeterminate bool, cutoff int) {
@@ -463,7 +501,21 @@ func (m *model) judge(s *snap, r *Recovered) *verdict {
 				}
 			}
 			if len(ack) > 0 {
-				v.add(&v.C01, "violation", "", fmt.Sprintf("%s: %s interval %d holds A=%d, expected the last acknowledged write (one of %v)", where, sk.Key, sk.Slot, row[2], keys(cand)))
+				inter := false
+				for _, x := range inf {
+					for _, iv := range x.Inter {
+						inter = inter || iv == row[2]
+					}
+				}
+				if from, last, any := walSkipAsIs(s, sk); from != 0 && ((any && last == row[2]) || (!any && (started || inter))) {
+					// listed defect F-WALSKIP: replay re-applied the transactions logged before the one that names
+					// a file of a destroyed bucket (the last of them that writes this slot carries the value found)
+					// or none of them touches the slot (the value is what the crash left), and it never reached
+					// the later transactions that would have restored an acknowledged value
+					v.add(&v.C01, "known", "F-WALSKIP", fmt.Sprintf("%s: %s interval %d holds A=%d instead of the last acknowledged write (one of %v): replay stopped at transaction %d, which names a file of a destroyed bucket", where, sk.Key, sk.Slot, row[2], keys(cand), from))
+				} else {
+					v.add(&v.C01, "violation", "", fmt.Sprintf("%s: %s interval %d holds A=%d, expected the last acknowledged write (one of %v)", where, sk.Key, sk.Slot, row[2], keys(cand)))
+				}
 			}
 			// an earlier row of an in-flight request for the same interval: only explicable when the
 			// request was logged as several transactions (F-SPLIT) and the one with its last row is not
